@@ -11,6 +11,7 @@ import (
 	"fmt"
 	"os"
 	"strings"
+	"time"
 )
 
 // Replay is the on-disk form of a counterexample / sample model.
@@ -193,6 +194,24 @@ func IteBool(c bool, a, b bool) bool {
 	return b
 }
 
+// ClockStep lets time pass: the engine advances its clock by a symbolic number
+// of whole seconds in [0,max]; the native twin really sleeps that long.
+func ClockStep(name string, max int) uint64 {
+	d := get(name)
+	if d > uint64(max) {
+		panic(assumeFailed{})
+	}
+	time.Sleep(time.Duration(d) * time.Second)
+	return d
+}
+
+// TimeAgo returns base - ageSec seconds - 500 ms. The half second keeps every
+// instant a harness builds away from whole-second thresholds, so the few
+// microseconds a native run takes cannot flip a comparison.
+func TimeAgo(base time.Time, ageSec uint64) time.Time {
+	return base.Add(-(time.Duration(ageSec)*time.Second + 500*time.Millisecond))
+}
+
 // Concrete forces a symbolic value to a concrete one by case split (engine); identity natively.
 func Concrete(x uint64) uint64 { return x }
 
@@ -204,4 +223,13 @@ func Param(name string, def int) int {
 		}
 	}
 	return def
+}
+
+// Range returns an input constrained to [lo,hi].
+func Range(name string, lo, hi uint64) uint64 {
+	v := get(name)
+	if v < lo || v > hi {
+		panic(assumeFailed{})
+	}
+	return v
 }
